@@ -67,6 +67,60 @@ class Sym:
         self.env = {}
         self.funcs = funcs            # dotted call name -> symbol of a unary real function
         self.reductions = reductions  # list collecting (summand tree) of `.sum(axis=-1)`
+        self.closures = {}            # local helper functions (closures), inlined at each call
+        self.flags = {}               # truth value of the guards `<name> is not None`
+        self.depth = 0
+
+    def define_closure(self, fn):
+        a = fn.args
+        if a.vararg or a.kwarg or a.kwonlyargs or a.defaults or a.posonlyargs or fn.decorator_list:
+            fail(fn, "local helper %s: only plain positional parameters are accepted" % fn.name, self.fname)
+        for n in ast.walk(fn):
+            if isinstance(n, (ast.Global, ast.Nonlocal, ast.Yield, ast.YieldFrom, ast.Lambda, ast.For, ast.While, ast.Try, ast.With)) or (isinstance(n, ast.FunctionDef) and n is not fn):
+                fail(n, "local helper %s contains %s" % (fn.name, type(n).__name__), self.fname)
+        self.closures[fn.name] = fn
+
+    def call_closure(self, fn, argtrees, node):
+        """Inlines a local helper: its body is executed symbolically in the caller's current
+        environment (python closures read the enclosing variables at call time) extended by the
+        parameters; local assignments do not leak out."""
+        params = [x.arg for x in fn.args.args]
+        if len(params) != len(argtrees):
+            fail(node, "call of %s with %d arguments" % (fn.name, len(argtrees)), self.fname)
+        if self.depth > 4:
+            fail(node, "helper calls nested too deeply (recursion?)", self.fname)
+        saved = self.env
+        self.env = dict(saved)
+        self.env.update(zip(params, argtrees))
+        self.depth += 1
+        try:
+            result = self._run_closure_body(fn.body, fn)
+        finally:
+            self.env = saved
+            self.depth -= 1
+        if result is None:
+            fail(fn, "local helper %s does not return a value on every path" % fn.name, self.fname)
+        return result
+
+    def _run_closure_body(self, stmts, fn):
+        for st in stmts:
+            if isinstance(st, ast.Expr) and isinstance(st.value, ast.Constant):
+                continue
+            if isinstance(st, ast.Assign) and len(st.targets) == 1 and isinstance(st.targets[0], ast.Name):
+                self.env[st.targets[0].id] = self.ex(st.value)
+            elif isinstance(st, ast.Return) and st.value is not None:
+                return self.ex(st.value)
+            elif isinstance(st, ast.If) and not st.orelse:
+                seg = ast.get_source_segment(self.src, st.test)
+                if seg not in self.flags:
+                    fail(st, "undecidable guard `%s` in local helper %s" % (seg, fn.name), self.fname)
+                if self.flags[seg]:
+                    r = self._run_closure_body(st.body, fn)
+                    if r is not None:
+                        return r
+            else:
+                fail(st, "statement %s in local helper %s" % (type(st).__name__, fn.name), self.fname)
+        return None
 
     def dotted(self, node):
         if isinstance(node, ast.Name):
@@ -117,6 +171,8 @@ class Sym:
                 return ("allmax", self.ex(n.args[0]))
             if name in self.funcs and len(n.args) == 1:
                 return ("app", self.funcs[name], self.ex(n.args[0]))
+            if isinstance(n.func, ast.Name) and n.func.id in self.closures and not n.keywords:
+                return self.call_closure(self.closures[n.func.id], [self.ex(a) for a in n.args], n)
             if isinstance(n.func, ast.Attribute) and n.func.attr == "sum":
                 kw = {k.arg: k.value for k in n.keywords}
                 if not n.args and set(kw) == {"axis"} and isinstance(kw["axis"], ast.UnaryOp) and ast.get_source_segment(self.src, kw["axis"]) == "-1":
@@ -282,6 +338,7 @@ def read_solve(repo):
         if names != need:
             fail(fn, "Solve signature changed: %s" % names, rel)
         S.env = {"pOld_e_pg": ("v", "pOld"), "sigma_y": ("v", "sigma_y"), "dt": ("v", "dt"), "tol": ("v", "tol")}
+        S.flags = {"rate is not None": with_rate}
         theta_name = None
         phi_calls = 0
         loop_seen = False
@@ -307,6 +364,8 @@ def read_solve(repo):
                 return
             if not isinstance(tg, ast.Name):
                 fail(st, "assignment target", rel)
+            if tg.id in S.closures:
+                fail(st, "local helper %s is re-bound" % tg.id, rel)
             if isinstance(v, ast.Call) and S.dotted(v.func) == "FeArray.zeros":
                 if theta_name is None:
                     theta_name = tg.id
@@ -330,7 +389,11 @@ def read_solve(repo):
             for st in stmts:
                 if isinstance(st, ast.Expr) and isinstance(st.value, ast.Constant):
                     continue
-                if isinstance(st, ast.Assign) and len(st.targets) == 1:
+                if isinstance(st, ast.FunctionDef) and not in_loop and not loop_seen:
+                    if st.name in S.env or st.name in S.closures:
+                        fail(st, "local helper %s shadows another name" % st.name, rel)
+                    S.define_closure(st)
+                elif isinstance(st, ast.Assign) and len(st.targets) == 1:
                     assign(st)
                 elif isinstance(st, ast.If):
                     seg = ast.get_source_segment(src, st.test)
